@@ -217,6 +217,25 @@ func cmdCheck(args []string) int {
 	for _, o := range all {
 		ruleCounts[o.Rule]++
 	}
+	// every distinct (rule, construct) obligation of this run, with the argument that discharged it
+	var oblList []map[string]any
+	oblIdx := map[string]int{}
+	for _, o := range all {
+		k := o.Rule + "|" + o.Construct
+		if i, ok := oblIdx[k]; ok {
+			oblList[i]["configs"] = oblList[i]["configs"].(int) + 1
+			if o.Status != core.Discharged {
+				oblList[i]["status"] = o.Status
+			}
+			continue
+		}
+		how := o.How
+		if len(how) > 240 {
+			how = how[:240] + "…"
+		}
+		oblIdx[k] = len(oblList)
+		oblList = append(oblList, map[string]any{"rule": o.Rule, "construct": o.Construct, "at": o.At, "status": o.Status, "how": how, "configs": 1})
+	}
 	var ruleList []string
 	for k := range rs.Rules {
 		ruleList = append(ruleList, k+": "+rs.Rules[k])
@@ -234,6 +253,7 @@ func cmdCheck(args []string) int {
 			"rule": "an obligation is one (rule, construct, build configuration) instance extracted from the type-checked SSA of /repo's working tree; " +
 				"distinct = distinct (rule, construct) pairs; non-trivial = the discharge needed a dominance, path, provenance, lock-set or table argument rather than a constant fact",
 			"samples":              samples,
+			"obligation_list":      oblList,
 			"rules":                ruleList,
 			"instances_per_rule":   ruleCounts,
 			"known_findings_hit":   knownHit,
